@@ -7,6 +7,7 @@ package main
 import (
 	"fmt"
 	"strings"
+	"unicode/utf8"
 
 	psa "github.com/veraison/psatoken"
 )
@@ -84,7 +85,11 @@ func surfaceValidators(r *Run, rng *Rng, n int) {
 		}
 		var err error
 		pan, _ := safely(func() { err = psa.ValidateHashAlgID(c) })
-		r.ImplOnly("surface/hash-alg-id", false, fmt.Sprintf("validate-hash-alg x%s", hx([]byte(c))))
+		if pan || !utf8.ValidString(c) {
+			r.ImplOnly("surface/hash-alg-id", false, fmt.Sprintf("validate-hash-alg x%s", hx([]byte(c))))
+		} else {
+			r.Case("surface/hash-alg-id", false, "hashalg x"+hx([]byte(c)), fmtErr(err))
+		}
 		switch {
 		case pan:
 			r.Fail("validate-iff-conformant", "ValidateHashAlgID panicked")
@@ -135,13 +140,22 @@ func surfaceContainer(r *Run, rng *Rng, n int) {
 		cont := &psa.SwComponents[*psa.SwComponent]{}
 		var held []psa.ISwComponent
 		nOps := 1 + rng.Intn(8)
-		var hist []string
+		var hist, proto, results []string
+		modelled := true // the model's container holds the library's component type and no nil entries
 		for k := 0; k < nOps; k++ {
 			cs := randomComps(rng, 4, 85)
 			vals := buildComps(cs)
 			bad, _ := firstBad(cs)
 			kind := Pick(rng, []string{"add", "add", "replace"})
 			hist = append(hist, fmt.Sprintf("%s:%d/%d", kind, len(cs), bad))
+			parts := make([]string, len(cs))
+			for ci, c := range cs {
+				parts[ci] = c.String()
+				if c.Nil {
+					modelled = false
+				}
+			}
+			proto = append(proto, kind+":["+strings.Join(parts, ";")+"]")
 			beforeVals, beforeErr := cont.Values()
 			before := compsString(beforeVals) + fmtErr(beforeErr)
 			var err error
@@ -154,8 +168,10 @@ func surfaceContainer(r *Run, rng *Rng, n int) {
 			})
 			if pan {
 				r.Fail("setter-panic", "container "+kind+" panicked")
+				modelled = false
 				break
 			}
+			results = append(results, fmtErr(err))
 			if (err == nil) != (bad < 0) {
 				r.Fail("setter-iff-valid", fmt.Sprintf("container %s of %d components (first invalid at %d): ok=%v", kind, len(cs), bad, err == nil))
 			}
@@ -182,7 +198,17 @@ func surfaceContainer(r *Run, rng *Rng, n int) {
 				r.Fail("all-mandatory-set-validates", fmt.Sprintf("container of accepted components does not validate: %v", verr))
 			}
 		}
-		r.ImplOnly("surface/container", false, "container "+strings.Join(hist, ","))
+		if modelled {
+			final := []string{}
+			if vals, err := cont.Values(); err == nil {
+				for _, v := range vals {
+					final = append(final, compDescOf(v.(*psa.SwComponent)).String())
+				}
+			}
+			r.Case("surface/container", false, "cont ops="+strings.Join(proto, "|"), "r="+strings.Join(results, ",")+" final=["+strings.Join(final, ";")+"]")
+		} else {
+			r.ImplOnly("surface/container", false, "container "+strings.Join(hist, ","))
+		}
 	}
 	// a container filled by decoding (no validation on the way in): Validate and Values agree with the contents
 	for i := 0; i < n/2; i++ {
